@@ -1,7 +1,7 @@
 """Property id -> check function."""
 import json
 
-from . import props_pool, props_router, props_plugins, props_relay, props_pause, props_shutdown, props_reload, props_prepared, props_params, props_auth, props_config, props_hostile, props_failover, props_stats
+from . import props_pool, props_router, props_plugins, props_relay, props_pause, props_shutdown, props_reload, props_prepared, props_params, props_auth, props_config, props_hostile, props_failover, props_stats, props_mirror
 
 CHECKS = {
     'C01': props_pool.check,
@@ -23,6 +23,7 @@ CHECKS = {
     'C11': props_hostile.check_c11,
     'C07': props_failover.check_c07,
     'C18': props_stats.check_c18,
+    'C20': props_mirror.check_c20,
 }
 
 
